@@ -127,7 +127,8 @@ class C10(IRCheck):
             "1,2,3,4,8,16,32,64,255 x operand widths shorter/equal/longer x edge-value grid (carries across all bytes, "
             "sign boundaries, shift amounts around 8w, divisors 0/1/max/truncated-to-zero) + seeded random; exhaustive "
             "over all 256x256 one-byte operand pairs per operator at operation width 1 (table events); expected value "
-            "from BV; non-trivial = operands not both zero; distinct by (op, widths, operand bytes)")
+            "from BV; operands made by narrowing a wider constant (live bytes behind them in the backing array) at "
+            "operation widths 2,3,4,8,16; non-trivial = operands not both zero; distinct by (op, widths, operand bytes)")
     assumptions = ["operand values above one byte are sampled (edge grid + seeded random), not enumerated"]
     exhaustive_part = "all one-byte operand pairs x 7 operators at operation width 1"
 
@@ -231,7 +232,8 @@ class C11(IRCheck):
     rule = ("cases: each of the 24 exported gadgets at widths 1,2,4,8,16 (SignedMul up to 8), built (R1) on constant "
             "operands and folded by ConstFold and (R2) on register operands and evaluated by ExprIR!Eval; operand values "
             "from the edge grid (0, +-1, MIN, MAX, sign boundary, carries) x seeded random, all value pairs from a "
-            "16-value grid at width 1; expected from Gadgets!Ref (written from the doc-comments); non-trivial = not all "
+            "16-value grid at width 1; every two-operand gadget against the special constants 0, 1, 2, all ones and a power "
+            "of two in every byte (both positions, other operand with all bytes non-zero); expected from Gadgets!Ref (written from the doc-comments); non-trivial = not all "
             "operands zero; distinct by (gadget, width, operand values, route)")
     assumptions = ["operands have the gadget's documented width (mixed widths only where the documentation defines them)",
                    "SignExtend is exercised only with a sign bit inside the result width (documented as undefined otherwise)",
